@@ -124,6 +124,11 @@ func vfRandAfts(r *rand.Rand) *aftpb.Afts {
 				}
 				n.EncapHeader = append(n.EncapHeader, &aftpb.Afts_NextHop_EncapHeaderKey{Index: idx, EncapHeader: h})
 			}
+			if len(n.EncapHeader) == 2 && r.Intn(6) == 0 {
+				// an undefined type number in the FIRST of two headers (the second one is fine)
+				n.EncapHeader[0].EncapHeader.Type = enums.OpenconfigAftTypesEncapsulationHeaderType([]int32{-1, 9, 99}[r.Intn(3)])
+				n.EncapHeader[1].EncapHeader.Type = enums.OpenconfigAftTypesEncapsulationHeaderType(4)
+			}
 		}
 		if r.Intn(3) == 0 {
 			for i, k := 0, 1+r.Intn(3); i < k; i++ {
@@ -229,6 +234,7 @@ func TestVfModelAgreement(t *testing.T) {
 	r := rand.New(rand.NewSource(seed))
 	agree := 0
 	nRT := 0
+	nPanic := 0
 	for i := 0; i < n; i++ {
 		a := vfRandAfts(r)
 		if vfDupMembersDiffer(a) {
@@ -241,6 +247,15 @@ func TestVfModelAgreement(t *testing.T) {
 		model, merr, mpanic := vfCatchCandidate(vfModelCandidateRIB, a)
 		if rpanic != mpanic {
 			t.Errorf("candidateRIB(%v): real panicked=%v, model panicked=%v", a, rpanic, mpanic)
+			if rpanic {
+				// the REAL conversion crashes on this payload: a concrete demonstration that one operation can take
+				// the server down (C12), whatever the model says
+				nPanic++
+				if out := os.Getenv("VF_C12_PANIC_OUT"); out != "" && nPanic == 1 {
+					b, _ := prototext.Marshal(a)
+					os.WriteFile(out, b, 0o644)
+				}
+			}
 			continue
 		}
 		if rpanic {
@@ -400,6 +415,25 @@ func vfRoundTripIdentity(a *aftpb.Afts, real, model *aft.RIB) string {
 		}
 	}
 	return ""
+}
+
+// TestVfPanicReplay re-runs the real conversion on the payload saved for a crash ($VF_C12_PAYLOAD).
+func TestVfPanicReplay(t *testing.T) {
+	p := os.Getenv("VF_C12_PAYLOAD")
+	if p == "" {
+		t.Skip("no VF_C12_PAYLOAD")
+	}
+	b, err := os.ReadFile(p)
+	if err != nil {
+		t.Fatal(err)
+	}
+	a := &aftpb.Afts{}
+	if err := prototext.Unmarshal(b, a); err != nil {
+		t.Fatal(err)
+	}
+	if _, _, panicked := vfCatchCandidate(candidateRIB, a); panicked {
+		t.Fatalf("VFC12-PANIC candidateRIB panics on %v", a)
+	}
 }
 
 // TestVfRoundTripReplay re-runs the real round trip on the payload saved by a VFC07-ROUNDTRIP failure ($VF_C07_PAYLOAD).
